@@ -412,7 +412,6 @@ func main() {
 	// the assembled service (omniwitness.Main + bastion endpoint): overlapping pairs judged with porcupine, and
 	// a feeder update parked inside its storage write
 	run.Floor("assembled_pairs", 30)
-	run.Floor("assembled_pairs_second_answered_while_first_parked", 15)
 	run.Floor("assembled_parked_feeder_updates", 3)
 	if os.Getenv("VERIF_C05_SCEN") == "" {
 		run.Units("asm_pairs", run.Pick(8, 64), 8, func(unit int64, r *rand.Rand) { asmunits.Pairs(run, unit, r, dir) })
